@@ -213,7 +213,9 @@ func run(c Case, st Step, recycle bool) (r result, ok bool) {
 		if !okd {
 			return r, false
 		}
-		msg, stack := obs.Guard(func() { r.Outcome = obs.FromResult(validate.NewHeaderValidator("X-H", h, registry, ropt...).Validate(v)) })
+		msg, stack := obs.Guard(func() {
+			r.Outcome = obs.FromResult(validate.NewHeaderValidator("X-H", h, registry, ropt...).Validate(v))
+		})
 		if msg != "" {
 			r.Outcome = obs.Outcome{Panic: msg, Stack: stack}
 		}
